@@ -148,6 +148,13 @@ func (sc *SpecCtx) eval(e *SExpr) (*Val, error) {
 			sub.qvars[k] = true
 		}
 		sub.qvars[e.Name] = true
+		if e.Lo == nil {
+			body, err := sub.eval(e.X)
+			if err != nil {
+				return nil, err
+			}
+			return &Val{T: fmt.Sprintf("(%s ((%s Int)) %s)", e.Op, e.Name, body.T), Ty: boolType}, nil
+		}
 		lo, err := sc.eval(e.Lo)
 		if err != nil {
 			return nil, err
@@ -323,7 +330,7 @@ func (sc *SpecCtx) index(x, i *Val) (*Val, error) {
 	}
 	switch t := x.Ty.Underlying().(type) {
 	case *types.Slice:
-		at := sx("+", sx("sl-off", x.T), i.T)
+		at := sx("ix", sx("sl-off", x.T), i.T)
 		if isStruct(t.Elem()) {
 			return &Val{T: sx("elemref", sx("sl-base", x.T), at), Ty: types.NewPointer(t.Elem())}, nil
 		}
@@ -574,7 +581,7 @@ func (sc *SpecCtx) lvalTargets(e *SExpr) ([]frameTarget, error) {
 				if err != nil {
 					return nil, err
 				}
-				return []frameTarget{{Comp: c.Name, Ref: sx("sl-base", x.T), Idx: sx("+", sx("sl-off", x.T), i.T)}}, nil
+				return []frameTarget{{Comp: c.Name, Ref: sx("sl-base", x.T), Idx: sx("ix", sx("sl-off", x.T), i.T)}}, nil
 			}
 			return []frameTarget{{Comp: c.Name, Ref: sx("sl-base", x.T)}}, nil
 		case *types.Map:
